@@ -19,3 +19,7 @@ PY
 cd /verif
 VERIF_REPO=$D VERIF_EVIDENCE_DIR=$D/ev ./check $PROP ${TIER:+--tier $TIER} 2>&1 | tail -${LINES_OUT:-6}
 echo "rc=${PIPESTATUS[0]}"
+python3 -c "
+import json,sys
+d=json.load(open('$D/ev/$PROP.json'))
+print('  failed:', [x.split('/',1)[1][-70:] for x in d['coverage']['failed']][:12], 'undecided:', len(d['coverage']['undecided']))" 2>/dev/null
